@@ -4,10 +4,30 @@ use crate::model::{self, CAP};
 use crate::{flat_eq, flat_lt, Arb, Env, Flat};
 
 /// Inline bounded vector. Every operation is one pass over `0..CAP` at concrete indices.
-#[derive(Clone, Debug)]
+#[cfg_attr(not(feature = "vecclone"), derive(Clone))]
+#[derive(Debug)]
 pub struct Vec<T> {
     len: u32,
     items: [Option<T>; CAP],
+}
+/// feature `vecclone` (off by default; same result): element-wise clone in a plain loop. The derived `Clone` clones
+/// the array `[Option<T>; CAP]` of a non-`Copy` `T` through core's `MaybeUninit` buffer (a union, written through raw
+/// pointers): after it CBMC no longer propagates constants through the elements, so every later comparison of elements
+/// that are CONSTANTS in the harness is left to the solver (e.g. `for x in v.iter()` clones `v`: an insertion sort of
+/// 15 fixed signers then costs 7 M symbolic-execution steps instead of 0.3 M; C20 limit harnesses).
+#[cfg(feature = "vecclone")]
+impl<T: Clone> Clone for Vec<T> {
+    fn clone(&self) -> Self {
+        let mut v = Vec { len: self.len, items: [const { None }; CAP] };
+        let mut k = 0;
+        while k < CAP {
+            if let Some(x) = &self.items[k] {
+                v.items[k] = Some(x.clone());
+            }
+            k += 1;
+        }
+        v
+    }
 }
 
 impl<T: Clone> Vec<T> {
